@@ -1796,8 +1796,78 @@ impl SparqlDatabase {
         term.to_string()
     }
 
+    /// Split an N3 statement into terms and the punctuation `;` `,` `.`. White
+    /// space and punctuation inside `<...>` or inside a double-quoted literal belong
+    /// to the term. A `.` only ends a term when white space or the end of the
+    /// statement follows, so prefixed names and numbers containing a dot stay whole.
+    fn tokenize_n3_statement(statement: &str) -> Vec<String> {
+        let mut tokens = Vec::new();
+        let mut current = String::new();
+        let mut in_iri = false;
+        let mut in_literal = false;
+        let mut escaped = false;
+        let mut characters = statement.chars().peekable();
+
+        while let Some(character) = characters.next() {
+            if in_literal {
+                current.push(character);
+                if escaped {
+                    escaped = false;
+                } else if character == '\\' {
+                    escaped = true;
+                } else if character == '"' {
+                    in_literal = false;
+                }
+                continue;
+            }
+            if in_iri {
+                current.push(character);
+                if character == '>' {
+                    in_iri = false;
+                }
+                continue;
+            }
+            match character {
+                '"' => {
+                    in_literal = true;
+                    current.push(character);
+                }
+                '<' => {
+                    in_iri = true;
+                    current.push(character);
+                }
+                ';' | ',' => {
+                    if !current.is_empty() {
+                        tokens.push(std::mem::take(&mut current));
+                    }
+                    tokens.push(character.to_string());
+                }
+                '.' if characters
+                    .peek()
+                    .map_or(true, |next| next.is_whitespace()) =>
+                {
+                    if !current.is_empty() {
+                        tokens.push(std::mem::take(&mut current));
+                    }
+                    tokens.push(character.to_string());
+                }
+                _ if character.is_whitespace() => {
+                    if !current.is_empty() {
+                        tokens.push(std::mem::take(&mut current));
+                    }
+                }
+                _ => current.push(character),
+            }
+        }
+        if !current.is_empty() {
+            tokens.push(current);
+        }
+        tokens
+    }
+
     fn parse_statement(&mut self, statement: &str) {
-        let mut tokens = statement.split_whitespace().peekable();
+        let token_list = Self::tokenize_n3_statement(statement);
+        let mut tokens = token_list.iter().map(|token| token.as_str()).peekable();
         let mut subject = String::new();
         let mut predicate = String::new();
         let mut current_state = "subject";
@@ -1807,6 +1877,10 @@ impl SparqlDatabase {
                 ";" => {
                     predicate.clear();
                     current_state = "predicate";
+                }
+                "," => {
+                    // Object list: another object for the same subject and predicate
+                    current_state = "object";
                 }
                 "." => {
                     // End of statement
